@@ -1,4 +1,4 @@
-from specs.common import run, ASSUME_COMMON
+from specs.common import run, memcheck, ASSUME_COMMON
 
 # case layout of harness/c16_b3_jaeger.cc (the same in both tiers, so a case replays under any tier):
 # every 25th case is the next slot of the completely enumerated block - enumerated case e = i/25
@@ -12,7 +12,8 @@ SPEC = {
     "runs": [run("e1-recogniser", "c16_b3_jaeger", "asan", 21600, 3000000, need_lib=False),
              # the shared propagator objects used by 2..8 threads at once (TSan + perturbation shim)
              run("e2-threads", "prop_threads", "tsan", 60, 3000, sq=2, st=8, need_lib=False, params={"prop": "C16"},
-                 sources=["harness/prop_threads.cc", "vf/shim/vf_runtime.cc"])],
+                 sources=["harness/prop_threads.cc", "vf/shim/vf_runtime.cc"]),
+             memcheck("c16_b3_jaeger", 600, 60000, need_lib=False)],
     "floors": {
         "quick": {"concurrent_cases_ge4_threads": 15, "extracts_repeated_over_scribbled_stack": 100000, "enum_b3_single_byte_mutants_51": 13056, "enum_jaeger_single_byte_mutants_54": 13824,
                   "enum_multi_id_single_byte_mutants": 4096, "enum_multi_sampled_values": 89,
